@@ -17,7 +17,6 @@ package internal
 import (
 	"net/url"
 	"strings"
-	"unicode"
 )
 
 // URLKeyer describes the interface implemented by types that can generate a
@@ -143,7 +142,7 @@ func fromHex(c byte) byte {
 
 // isUnreserved reports whether r is an unreserved character per RFC 3986 §2.3.
 func isUnreserved(r rune) bool {
-	return unicode.IsLetter(r) || unicode.IsDigit(r) ||
+	return ('A' <= r && r <= 'Z') || ('a' <= r && r <= 'z') || ('0' <= r && r <= '9') ||
 		r == '-' || r == '.' || r == '_' || r == '~'
 }
 
